@@ -117,10 +117,22 @@ func workerC18Tiny(args []string) int {
 				go func(g int) {
 					defer wg.Done()
 					<-gate
+					own := map[string]string{}
 					for i := 0; i < K; i++ {
 						var id uint32
 						var err error
-						if p, msg, _ := vf.Try(func() { id, err = addRow(map[string]string{"tag": fmt.Sprintf("t%d-%d-%d", run, g, i), "g": fmt.Sprint(g), "k": "x"}) }); p {
+						row := map[string]string{"tag": fmt.Sprintf("t%d-%d-%d", run, g, i), "g": fmt.Sprint(g), "k": "x"}
+						if run%2 == 1 {
+							// every other history: one map object per goroutine, refilled for every row
+							clear(own)
+							for k, v := range row {
+								own[k] = v
+							}
+							row = own
+						}
+						if p, msg, _ := vf.Try(func() {
+							id, err = addRow(row)
+						}); p {
 							h.errs[g] = "panic: " + msg
 							return
 						}
